@@ -1,6 +1,6 @@
 /* stubs/xmalloc_small.c - xmalloc by contract for harnesses whose allocation sizes depend on the
  * input: "a fresh zeroed object of exactly `size` bytes".  CBMC's bit-blaster cannot handle objects
- * of symbolic size, so the size is case-split into concrete sizes 0..128 (exact, nothing is
+ * of symbolic size, so the size is case-split into concrete sizes 0..32 (exact, nothing is
  * over-allocated: an off-by-one write is still a bounds violation); larger requests are outside the
  * harness bound and flagged. */
 #include <stdlib.h>
@@ -41,250 +41,12 @@ void *xmalloc(unsigned int size)
     case 30: p = calloc(1, 30); break;
     case 31: p = calloc(1, 31); break;
     case 32: p = calloc(1, 32); break;
-    case 33: p = calloc(1, 33); break;
-    case 34: p = calloc(1, 34); break;
-    case 35: p = calloc(1, 35); break;
-    case 36: p = calloc(1, 36); break;
-    case 37: p = calloc(1, 37); break;
-    case 38: p = calloc(1, 38); break;
-    case 39: p = calloc(1, 39); break;
-    case 40: p = calloc(1, 40); break;
-    case 41: p = calloc(1, 41); break;
-    case 42: p = calloc(1, 42); break;
-    case 43: p = calloc(1, 43); break;
-    case 44: p = calloc(1, 44); break;
-    case 45: p = calloc(1, 45); break;
-    case 46: p = calloc(1, 46); break;
-    case 47: p = calloc(1, 47); break;
-    case 48: p = calloc(1, 48); break;
-    case 49: p = calloc(1, 49); break;
-    case 50: p = calloc(1, 50); break;
-    case 51: p = calloc(1, 51); break;
-    case 52: p = calloc(1, 52); break;
-    case 53: p = calloc(1, 53); break;
-    case 54: p = calloc(1, 54); break;
-    case 55: p = calloc(1, 55); break;
-    case 56: p = calloc(1, 56); break;
-    case 57: p = calloc(1, 57); break;
-    case 58: p = calloc(1, 58); break;
-    case 59: p = calloc(1, 59); break;
-    case 60: p = calloc(1, 60); break;
-    case 61: p = calloc(1, 61); break;
-    case 62: p = calloc(1, 62); break;
-    case 63: p = calloc(1, 63); break;
-    case 64: p = calloc(1, 64); break;
-    case 65: p = calloc(1, 65); break;
-    case 66: p = calloc(1, 66); break;
-    case 67: p = calloc(1, 67); break;
-    case 68: p = calloc(1, 68); break;
-    case 69: p = calloc(1, 69); break;
-    case 70: p = calloc(1, 70); break;
-    case 71: p = calloc(1, 71); break;
-    case 72: p = calloc(1, 72); break;
-    case 73: p = calloc(1, 73); break;
-    case 74: p = calloc(1, 74); break;
-    case 75: p = calloc(1, 75); break;
-    case 76: p = calloc(1, 76); break;
-    case 77: p = calloc(1, 77); break;
-    case 78: p = calloc(1, 78); break;
-    case 79: p = calloc(1, 79); break;
-    case 80: p = calloc(1, 80); break;
-    case 81: p = calloc(1, 81); break;
-    case 82: p = calloc(1, 82); break;
-    case 83: p = calloc(1, 83); break;
-    case 84: p = calloc(1, 84); break;
-    case 85: p = calloc(1, 85); break;
-    case 86: p = calloc(1, 86); break;
-    case 87: p = calloc(1, 87); break;
-    case 88: p = calloc(1, 88); break;
-    case 89: p = calloc(1, 89); break;
-    case 90: p = calloc(1, 90); break;
-    case 91: p = calloc(1, 91); break;
-    case 92: p = calloc(1, 92); break;
-    case 93: p = calloc(1, 93); break;
-    case 94: p = calloc(1, 94); break;
-    case 95: p = calloc(1, 95); break;
-    case 96: p = calloc(1, 96); break;
-    case 97: p = calloc(1, 97); break;
-    case 98: p = calloc(1, 98); break;
-    case 99: p = calloc(1, 99); break;
-    case 100: p = calloc(1, 100); break;
-    case 101: p = calloc(1, 101); break;
-    case 102: p = calloc(1, 102); break;
-    case 103: p = calloc(1, 103); break;
-    case 104: p = calloc(1, 104); break;
-    case 105: p = calloc(1, 105); break;
-    case 106: p = calloc(1, 106); break;
-    case 107: p = calloc(1, 107); break;
-    case 108: p = calloc(1, 108); break;
-    case 109: p = calloc(1, 109); break;
-    case 110: p = calloc(1, 110); break;
-    case 111: p = calloc(1, 111); break;
-    case 112: p = calloc(1, 112); break;
-    case 113: p = calloc(1, 113); break;
-    case 114: p = calloc(1, 114); break;
-    case 115: p = calloc(1, 115); break;
-    case 116: p = calloc(1, 116); break;
-    case 117: p = calloc(1, 117); break;
-    case 118: p = calloc(1, 118); break;
-    case 119: p = calloc(1, 119); break;
-    case 120: p = calloc(1, 120); break;
-    case 121: p = calloc(1, 121); break;
-    case 122: p = calloc(1, 122); break;
-    case 123: p = calloc(1, 123); break;
-    case 124: p = calloc(1, 124); break;
-    case 125: p = calloc(1, 125); break;
-    case 126: p = calloc(1, 126); break;
-    case 127: p = calloc(1, 127); break;
-    case 128: p = calloc(1, 128); break;
     default:
-        __CPROVER_assert(0, "xmalloc size beyond the harness bound (128)");
-        p = calloc(1, 128);
+        __CPROVER_assert(0, "xmalloc size beyond the harness bound (32)");
+        p = calloc(1, 32);
         break;
     }
     __CPROVER_assume(p != NULL);
     return p;
 }
 
-/* xrealloc by the same contract: "the old contents up to min(old, new), exactly `size` bytes" */
-void *xrealloc(void *ptr, unsigned int size)
-{
-    void *p;
-    switch (size) {
-    case 0: p = realloc(ptr, 0); break;
-    case 1: p = realloc(ptr, 1); break;
-    case 2: p = realloc(ptr, 2); break;
-    case 3: p = realloc(ptr, 3); break;
-    case 4: p = realloc(ptr, 4); break;
-    case 5: p = realloc(ptr, 5); break;
-    case 6: p = realloc(ptr, 6); break;
-    case 7: p = realloc(ptr, 7); break;
-    case 8: p = realloc(ptr, 8); break;
-    case 9: p = realloc(ptr, 9); break;
-    case 10: p = realloc(ptr, 10); break;
-    case 11: p = realloc(ptr, 11); break;
-    case 12: p = realloc(ptr, 12); break;
-    case 13: p = realloc(ptr, 13); break;
-    case 14: p = realloc(ptr, 14); break;
-    case 15: p = realloc(ptr, 15); break;
-    case 16: p = realloc(ptr, 16); break;
-    case 17: p = realloc(ptr, 17); break;
-    case 18: p = realloc(ptr, 18); break;
-    case 19: p = realloc(ptr, 19); break;
-    case 20: p = realloc(ptr, 20); break;
-    case 21: p = realloc(ptr, 21); break;
-    case 22: p = realloc(ptr, 22); break;
-    case 23: p = realloc(ptr, 23); break;
-    case 24: p = realloc(ptr, 24); break;
-    case 25: p = realloc(ptr, 25); break;
-    case 26: p = realloc(ptr, 26); break;
-    case 27: p = realloc(ptr, 27); break;
-    case 28: p = realloc(ptr, 28); break;
-    case 29: p = realloc(ptr, 29); break;
-    case 30: p = realloc(ptr, 30); break;
-    case 31: p = realloc(ptr, 31); break;
-    case 32: p = realloc(ptr, 32); break;
-    case 33: p = realloc(ptr, 33); break;
-    case 34: p = realloc(ptr, 34); break;
-    case 35: p = realloc(ptr, 35); break;
-    case 36: p = realloc(ptr, 36); break;
-    case 37: p = realloc(ptr, 37); break;
-    case 38: p = realloc(ptr, 38); break;
-    case 39: p = realloc(ptr, 39); break;
-    case 40: p = realloc(ptr, 40); break;
-    case 41: p = realloc(ptr, 41); break;
-    case 42: p = realloc(ptr, 42); break;
-    case 43: p = realloc(ptr, 43); break;
-    case 44: p = realloc(ptr, 44); break;
-    case 45: p = realloc(ptr, 45); break;
-    case 46: p = realloc(ptr, 46); break;
-    case 47: p = realloc(ptr, 47); break;
-    case 48: p = realloc(ptr, 48); break;
-    case 49: p = realloc(ptr, 49); break;
-    case 50: p = realloc(ptr, 50); break;
-    case 51: p = realloc(ptr, 51); break;
-    case 52: p = realloc(ptr, 52); break;
-    case 53: p = realloc(ptr, 53); break;
-    case 54: p = realloc(ptr, 54); break;
-    case 55: p = realloc(ptr, 55); break;
-    case 56: p = realloc(ptr, 56); break;
-    case 57: p = realloc(ptr, 57); break;
-    case 58: p = realloc(ptr, 58); break;
-    case 59: p = realloc(ptr, 59); break;
-    case 60: p = realloc(ptr, 60); break;
-    case 61: p = realloc(ptr, 61); break;
-    case 62: p = realloc(ptr, 62); break;
-    case 63: p = realloc(ptr, 63); break;
-    case 64: p = realloc(ptr, 64); break;
-    case 65: p = realloc(ptr, 65); break;
-    case 66: p = realloc(ptr, 66); break;
-    case 67: p = realloc(ptr, 67); break;
-    case 68: p = realloc(ptr, 68); break;
-    case 69: p = realloc(ptr, 69); break;
-    case 70: p = realloc(ptr, 70); break;
-    case 71: p = realloc(ptr, 71); break;
-    case 72: p = realloc(ptr, 72); break;
-    case 73: p = realloc(ptr, 73); break;
-    case 74: p = realloc(ptr, 74); break;
-    case 75: p = realloc(ptr, 75); break;
-    case 76: p = realloc(ptr, 76); break;
-    case 77: p = realloc(ptr, 77); break;
-    case 78: p = realloc(ptr, 78); break;
-    case 79: p = realloc(ptr, 79); break;
-    case 80: p = realloc(ptr, 80); break;
-    case 81: p = realloc(ptr, 81); break;
-    case 82: p = realloc(ptr, 82); break;
-    case 83: p = realloc(ptr, 83); break;
-    case 84: p = realloc(ptr, 84); break;
-    case 85: p = realloc(ptr, 85); break;
-    case 86: p = realloc(ptr, 86); break;
-    case 87: p = realloc(ptr, 87); break;
-    case 88: p = realloc(ptr, 88); break;
-    case 89: p = realloc(ptr, 89); break;
-    case 90: p = realloc(ptr, 90); break;
-    case 91: p = realloc(ptr, 91); break;
-    case 92: p = realloc(ptr, 92); break;
-    case 93: p = realloc(ptr, 93); break;
-    case 94: p = realloc(ptr, 94); break;
-    case 95: p = realloc(ptr, 95); break;
-    case 96: p = realloc(ptr, 96); break;
-    case 97: p = realloc(ptr, 97); break;
-    case 98: p = realloc(ptr, 98); break;
-    case 99: p = realloc(ptr, 99); break;
-    case 100: p = realloc(ptr, 100); break;
-    case 101: p = realloc(ptr, 101); break;
-    case 102: p = realloc(ptr, 102); break;
-    case 103: p = realloc(ptr, 103); break;
-    case 104: p = realloc(ptr, 104); break;
-    case 105: p = realloc(ptr, 105); break;
-    case 106: p = realloc(ptr, 106); break;
-    case 107: p = realloc(ptr, 107); break;
-    case 108: p = realloc(ptr, 108); break;
-    case 109: p = realloc(ptr, 109); break;
-    case 110: p = realloc(ptr, 110); break;
-    case 111: p = realloc(ptr, 111); break;
-    case 112: p = realloc(ptr, 112); break;
-    case 113: p = realloc(ptr, 113); break;
-    case 114: p = realloc(ptr, 114); break;
-    case 115: p = realloc(ptr, 115); break;
-    case 116: p = realloc(ptr, 116); break;
-    case 117: p = realloc(ptr, 117); break;
-    case 118: p = realloc(ptr, 118); break;
-    case 119: p = realloc(ptr, 119); break;
-    case 120: p = realloc(ptr, 120); break;
-    case 121: p = realloc(ptr, 121); break;
-    case 122: p = realloc(ptr, 122); break;
-    case 123: p = realloc(ptr, 123); break;
-    case 124: p = realloc(ptr, 124); break;
-    case 125: p = realloc(ptr, 125); break;
-    case 126: p = realloc(ptr, 126); break;
-    case 127: p = realloc(ptr, 127); break;
-    case 128: p = realloc(ptr, 128); break;
-    default:
-        __CPROVER_assert(0, "xrealloc size beyond the harness bound (128)");
-        p = realloc(ptr, 128);
-        break;
-    }
-    __CPROVER_assume(p != NULL);
-    return p;
-}
